@@ -11,6 +11,7 @@ package main
 
 import (
 	"bytes"
+	"encoding/json"
 	"fmt"
 	"strings"
 
@@ -131,7 +132,10 @@ type modelResp struct {
 		Accept *bool `json:"accept"`
 		Fuel   bool  `json:"fuel"`
 	} `json:"S"`
-	KF []string `json:"kf"`
+	KF         []string        `json:"kf"`
+	Blame      *int            `json:"blame"`
+	Completion json.RawMessage `json:"completion"`
+	Certified  *bool           `json:"certified"`
 }
 
 type lazyResp struct {
@@ -139,6 +143,9 @@ type lazyResp struct {
 		Kind string `json:"kind"`
 		Pos  *int   `json:"pos"`
 	} `json:"lazy"`
+	Blame      *int            `json:"blame"`
+	Completion json.RawMessage `json:"completion"`
+	Certified  *bool           `json:"certified"`
 }
 
 type caseT struct {
@@ -264,6 +271,42 @@ func main() {
 				return
 			}
 			run.Case(c.Src, len(raw) >= 1, nil)
+			lzBad := string(lz.Completion) == "null" || len(lz.Completion) == 0 // D-03b flag up: the prefix went through a malformed type reference
+			if lz.Blame != nil && !lzBad && (lz.Certified == nil || !*lz.Certified) {
+				run.Violation(fmt.Sprintf("the model blames token %d but the grammar, run as a program, certifies no completion of the tokens before it (Props/C18Syntax.lean certified_completion_viable does not apply)", *lz.Blame), map[string]interface{}{"case": c, "tokens": toks, "model": lz}, true)
+				return
+			}
+			if lz.Blame != nil && !lzBad {
+				run.Tag("viable-prefix-certified")
+			}
+			if g.ErrPos == want && lz.Blame != nil && string(lz.Completion) != "null" && len(lz.Completion) > 0 && isASCII(c.Src) {
+				// NOT EARLIER, also here: the tokens before the blamed one (all of them when the lexical error wins) are viable
+				k := *lz.Blame
+				var comp [][]interface{}
+				if string(lz.Completion) == `"none"` || json.Unmarshal(lz.Completion, &comp) != nil {
+					run.Violation(fmt.Sprintf("the model blames token %d (malformed lexeme after %d tokens) but the grammar finds no completion of the tokens before it", k, len(raw)), map[string]interface{}{"case": c, "tokens": toks, "model": lz}, true)
+					return
+				}
+				cut := 0
+				if k < len(raw) {
+					cut = raw[k].Start
+				} else if len(raw) > 0 {
+					cut = raw[len(raw)-1].End
+				}
+				parts := []string{}
+				for _, t := range comp {
+					kind, _ := t[0].(float64)
+					val, _ := t[1].(string)
+					parts = append(parts, renderTok(lexer.Token{Kind: lexer.TokenKind(int(kind)), Value: val}))
+				}
+				full := c.Src[:cut] + " " + strings.Join(parts, " ")
+				run.Tag("viable-prefix-completion")
+				if g2 := realParse(full); !g2.OK {
+					run.Violation(fmt.Sprintf("parser.Parse rejects the text before the reported token (index %d) followed by the grammar's completion of it: %q", k, full),
+						map[string]interface{}{"case": c, "tokens": toks, "model": lz, "prefix_plus_completion": full, "real_on_completion": g2}, false)
+					return
+				}
+			}
 			if g.ErrPos != want {
 				run.Violation(fmt.Sprintf("error offset differs on a text with a malformed lexeme: parser.Parse reports %d (%s), the model expects %d (%s error; lexical error at %d): a parser rejection at the current token must be reported before advancing lexes the next token, and only then",
 					g.ErrPos, g.Err, want, lz.Lazy.Kind, lexErrPos), map[string]interface{}{"case": c, "tokens": toks, "real": g, "model": lz, "lexErrPos": lexErrPos}, false)
@@ -328,6 +371,46 @@ func main() {
 			if m.M.ErrPos == nil || *m.M.ErrPos != g.ErrPos {
 				run.Violation(fmt.Sprintf("syntax error offset differs: parser.Parse %d, model %v", g.ErrPos, fmtPtr(m.M.ErrPos)), replay(), false)
 				return
+			}
+			// NOT EARLIER, certificate: for THIS input the model's grammar accepts (tokens before the blamed one) ++ completion,
+			// so certified_completion_viable proves the prefix viable (not under D-03b: a prefix that went through a malformed
+			// type reference is NOT viable in the grammar, the error surfaces late - NOT EARLIER carries the side condition bad = false)
+			if len(m.KF) == 0 && m.Blame != nil && (m.Certified == nil || !*m.Certified) {
+				run.Violation(fmt.Sprintf("the model blames token %d but the grammar, run as a program, certifies no completion of the %d tokens before it (Props/C18Syntax.lean certified_completion_viable does not apply)", *m.Blame, *m.Blame), replay(), true)
+				return
+			}
+			if len(m.KF) == 0 && m.Blame != nil {
+				run.Tag("viable-prefix-certified")
+			}
+			// NOT EARLIER: the tokens before the blamed one are the beginning of a valid document - the grammar-side
+			// completion of that prefix must exist and the REAL parser must accept prefix + completion (ASCII texts only:
+			// token offsets after a multi-byte character are rune-based, D-03a)
+			if len(m.KF) == 0 && m.Blame != nil && isASCII(c.Src) {
+				k := *m.Blame
+				var comp [][]interface{}
+				if string(m.Completion) == `"none"` || json.Unmarshal(m.Completion, &comp) != nil {
+					run.Violation(fmt.Sprintf("the model blames token %d but the grammar finds no completion of the %d tokens before it: the reported token is not the first at which the text stops being viable", k, k), replay(), true)
+					return
+				}
+				cut := len(c.Src)
+				if k < len(raw)-1 {
+					cut = raw[k].Start
+				}
+				parts := []string{}
+				for _, t := range comp {
+					kind, _ := t[0].(float64)
+					val, _ := t[1].(string)
+					parts = append(parts, renderTok(lexer.Token{Kind: lexer.TokenKind(int(kind)), Value: val}))
+				}
+				full := c.Src[:cut] + " " + strings.Join(parts, " ")
+				run.Tag("viable-prefix-completion")
+				if g2 := realParse(full); !g2.OK {
+					rp := replay()
+					rp["prefix_plus_completion"] = full
+					rp["real_on_completion"] = g2
+					run.Violation(fmt.Sprintf("parser.Parse rejects the text before the reported token (index %d) followed by the grammar's completion of it: %q", k, full), rp, false)
+					return
+				}
 			}
 		}
 		kf := len(m.KF) > 0 && m.M.OK
@@ -557,6 +640,15 @@ func contexts2() []string {
 		out = append(out, c.pre+" _ "+c.post)
 	}
 	return out
+}
+
+func isASCII(s string) bool {
+	for i := 0; i < len(s); i++ {
+		if s[i] >= 0x80 {
+			return false
+		}
+	}
+	return true
 }
 
 func fmtPtr(p *int) string {
